@@ -5,7 +5,7 @@ seed=$1; prop=$2; patch=${3:-patch.diff}
 cd /verif
 if ! git -C /repo diff --quiet; then echo "REPO DIRTY"; exit 3; fi
 if ! git -C /repo apply /verif/seeded/$seed/$patch 2>/tmp/seed_apply.err; then echo "PATCH-DOES-NOT-APPLY $seed: $(head -2 /tmp/seed_apply.err | tr '\n' ' ')"; exit 4; fi
-VERIF_EVIDENCE_DIR=/tmp/seed_evidence ./check $prop --tier quick > /tmp/seedtest_${seed}_${prop}.log 2>&1
+VERIF_EVIDENCE_DIR=/tmp/seed_evidence ./check $prop --tier ${SEED_TIER:-quick} > /tmp/seedtest_${seed}_${prop}.log 2>&1
 rc=$?
 git -C /repo checkout -- .
 echo "SEED $seed check=$prop exit=$rc $(grep -c '^VIOLATION' /tmp/seedtest_${seed}_${prop}.log) violations, $(grep -c 'BROKEN-CHECK' /tmp/seedtest_${seed}_${prop}.log) broken, $(grep -c '^INCONCLUSIVE' /tmp/seedtest_${seed}_${prop}.log) inconclusive"
